@@ -8,15 +8,7 @@ From Verif Require Import LBP.
 Import ListNotations.
 Local Open Scope Z_scope.
 
-(* first loop: replicas that are up and LOCAL for the child, in iteration order (these are remembered in `yielded`) *)
-Definition ta_prefix (up : Z -> bool) (cd : Z -> dist) (order : list Z) : list Z :=
-  filter (fun r => up r && dist_eqb (cd r) LOCAL) order.
-
-(* second loop (repaired code): the child's plan minus what the first loop yielded *)
-Definition ta_rest (yielded child : list Z) : list Z := filter (fun h => negb (mem h yielded)) child.
-
-Definition ta_plan (routed : bool) (up : Z -> bool) (cd : Z -> dist) (order child : list Z) : list Z :=
-  if routed then ta_prefix up cd order ++ ta_rest (ta_prefix up cd order) child else child.
+(* ta_prefix / ta_rest / ta_plan are defined in Model/LBP.v (C21 uses them for the token-aware wrapper too) *)
 
 (* the code before the repair (commit d849ab7): the second loop skipped every replica that is not REMOTE *)
 Definition ta_plan_before_fix (up : Z -> bool) (cd : Z -> dist) (order child : list Z) : list Z :=
